@@ -15,6 +15,7 @@ public:
     }
     bool GetOp(const_iterator& pc, opcodetype& opcodeRet) const { verif_bytes t; return GetOp(pc, opcodeRet, t); }
     CScript& operator<<(const verif_bytes& b);
+    bool IsPayToScriptHash() const;
 };
 class uint256 { public: unsigned char m_data[32]; unsigned char* begin() { return m_data; } unsigned char* end() { return m_data + 32; }
     const unsigned char* begin() const { return m_data; } const unsigned char* end() const { return m_data + 32; } };
